@@ -197,9 +197,13 @@ class CompleteWorkflowHandler(StabilizeHandler[CompleteWorkflow]):
         # resume) is not stuck: do not spend the wait budget on it - after
         # max_stage_wait_retries re-polls the workflow would be marked TERMINAL
         # while it legitimately waits. Stop polling; when the waiting stage is
-        # signalled, resumed or canceled, its completion pushes a fresh
-        # CompleteWorkflow.
-        if WorkflowStatus.SUSPENDED in statuses or WorkflowStatus.PAUSED in statuses:
+        # signalled or resumed, its completion pushes a fresh CompleteWorkflow.
+        # Not while a cancel is in progress: CancelStage pushes no
+        # CompleteWorkflow, so this poll chain is what finalises the workflow once
+        # the waiting stage has been canceled.
+        if (
+            WorkflowStatus.SUSPENDED in statuses or WorkflowStatus.PAUSED in statuses
+        ) and not execution.is_canceled:
             return None
 
         # Still running - check retry count before re-queuing
